@@ -276,7 +276,9 @@ def run_depth_balance(tier, log, seed):
     duo.close()
     res = dict(queries=q, solver_s=tm, engine="mir-cfg -> smtlib path search (z3 4.8.12 + cvc5 1.0)", bounds="; ".join(samples),
                detail="callee summaries: checkpoint +1, checkpoint_commit -1, checkpoint_revert -1, create_account_checkpoint Ok:+1/Err:0, all other callees 0")
-    if inconcl:
+    if any(f.get("reproduced") for f in failures):
+        res.update(status="fail", failures=failures, reason=failures[0]["description"][:300])
+    elif inconcl:
         res.update(status="inconclusive", reason="; ".join(map(str, inconcl))[:600])
     elif failures:
         res.update(status="fail", failures=failures, reason=failures[0]["description"][:300])
@@ -428,7 +430,9 @@ def run_reward_flag(tier, log, seed):
     duo.close()
     res = dict(queries=q, solver_s=tm, engine="mir dataflow -> smtlib (z3 4.8.12 + cvc5 1.0)", bounds="; ".join(samples),
                detail="the reward argument of every Handler constructor call inside the three rebuild functions must equal self.post_execution.reward_beneficiary.is_some(), and PostExecutionHandler::new must install the handle iff its flag is set")
-    if inconcl:
+    if any(f.get("reproduced") for f in failures):  # a replayed violation is reported whatever else stayed undecided
+        res.update(status="fail", failures=failures, reason=failures[0]["description"][:300])
+    elif inconcl:
         res.update(status="inconclusive", reason="; ".join(inconcl)[:500])
     elif failures:
         res.update(status="fail", failures=failures, reason=failures[0]["description"][:300])
@@ -555,7 +559,9 @@ def run_has_storage(tier, log, seed):
     duo.close()
     res = dict(queries=q, solver_s=tm, engine="mir impl/dataflow scan -> smtlib (z3 4.8.12 + cvc5 1.0)", bounds="; ".join(samples),
                detail="per database layer: the has_storage answer must equal the wrapped source's answer; per create path: the collision flag must be that answer")
-    if inconcl:
+    if any(f.get("reproduced") for f in failures):  # a replayed violation is reported whatever else stayed undecided
+        res.update(status="fail", failures=failures, reason=failures[0]["description"][:300])
+    elif inconcl:
         res.update(status="inconclusive", reason="; ".join(inconcl)[:500])
     elif failures:
         res.update(status="fail", failures=failures, reason=failures[0]["description"][:300])
@@ -790,7 +796,8 @@ def run_fork_tables(tier, log, seed):
                        f"{len(block)} disagreeing (opcode, spec) pairs, {confirmed} confirmed natively")
         log(f"[e3] {samples[-1]}")
         unconfirmed = len(block) - confirmed
-        if unconfirmed and not inconcl:
+        # confirmed pairs are violations whatever else happened; only when NOTHING reproduced is the disagreement put down to the encoding
+        if unconfirmed and not confirmed and not inconcl:
             inconcl.append(f"{unconfirmed} disagreeing (opcode, spec) pair(s) between the extracted fork gates and the EIP table did not reproduce natively: "
                            f"the gate of that opcode is not a plain `check!` any more and cannot be decided by this encoding")
     # ---------------- PrecompileSpecId::from_spec_id
@@ -852,7 +859,9 @@ def run_fork_tables(tier, log, seed):
     duo.close()
     res = dict(queries=q, solver_s=tm, engine="mir table/gate extraction + mir symbolic execution -> smtlib (z3 4.8.12 + cvc5 1.0)", bounds="; ".join(samples),
                detail="undefined(op, spec) := table maps to `unknown` or the function requires EOF or spec < its check! gate; compared with the EIP introduction table for all 256 x SpecIds")
-    if inconcl:
+    if any(f.get("reproduced") for f in failures):  # a replayed violation is reported whatever else stayed undecided
+        res.update(status="fail", failures=failures, reason=failures[0]["description"][:300])
+    elif inconcl:
         res.update(status="inconclusive", reason="; ".join(inconcl)[:500])
     elif failures:
         res.update(status="fail", failures=failures, reason=failures[0]["description"][:300])
@@ -938,7 +947,9 @@ def run_static_flag(tier, log, seed):
     duo.close()
     res = dict(queries=q, solver_s=tm, engine="mir aggregate/dataflow scan -> smtlib (z3 4.8.12 + cvc5 1.0)", bounds="; ".join(samples),
                detail="the is_static field of the CallInputs built by each call-family opcode")
-    if inconcl:
+    if any(f.get("reproduced") for f in failures):
+        res.update(status="fail", failures=[f for f in failures if f.get("reproduced")], reason=failures[0]["description"][:300])
+    elif inconcl:
         res.update(status="inconclusive", reason="; ".join(inconcl)[:500])
     elif failures:
         res.update(status="fail", failures=failures, reason=failures[0]["description"][:300])
@@ -1263,7 +1274,9 @@ def run_clear_on_exit(tier, log, seed):
     duo.close()
     res = dict(queries=q, solver_s=tm, engine="mir-cfg -> smtlib path search (z3 4.8.12 + cvc5 1.0)", bounds="; ".join(samples),
                detail="context-touching calls: validation env/initial_tx_gas/tx_against_state, preverify_transaction_inner, transact_preverified_inner, post_execution().end")
-    if inconcl:
+    if any(f.get("reproduced") for f in failures):  # a replayed violation is reported whatever else stayed undecided
+        res.update(status="fail", failures=failures, reason=failures[0]["description"][:300])
+    elif inconcl:
         res.update(status="inconclusive", reason="; ".join(map(str, inconcl))[:500])
     elif failures:
         res.update(status="fail", failures=failures, reason=failures[0]["description"][:300])
@@ -1336,7 +1349,9 @@ def run_inspector_balance(tier, log, seed):
     duo.close()
     res = dict(queries=q, solver_s=tm, engine="mir-cfg -> smtlib path search (z3 4.8.12 + cvc5 1.0)", bounds="; ".join(samples),
                detail="push/pop sites: Vec::<Box<CallInputs|CreateInputs|EOFCreateInputs>>::{push,pop}; unwind edges (pop().unwrap() on an empty stack) excluded")
-    if inconcl:
+    if any(f.get("reproduced") for f in failures):  # a replayed violation is reported whatever else stayed undecided
+        res.update(status="fail", failures=failures, reason=failures[0]["description"][:300])
+    elif inconcl:
         res.update(status="inconclusive", reason="; ".join(map(str, inconcl))[:500])
     elif failures:
         res.update(status="fail", failures=failures, reason=failures[0]["description"][:300])
@@ -1490,7 +1505,9 @@ def run_value_moves(tier, log, seed):
     duo.close()
     res = dict(queries=q, solver_s=tm, engine="mir-cfg -> smtlib path search (z3 4.8.12 + cvc5 1.0)", bounds="; ".join(samples),
                detail="branches on `address != target` share one Boolean; zeroing = store of Uint::ZERO into an AccountInfo balance; credit = AddAssign on a U256 / store into a balance")
-    if inconcl:
+    if any(f.get("reproduced") for f in failures):  # a replayed violation is reported whatever else stayed undecided
+        res.update(status="fail", failures=failures, reason=failures[0]["description"][:300])
+    elif inconcl:
         res.update(status="inconclusive", reason="; ".join(map(str, inconcl))[:500])
     elif failures:
         res.update(status="fail", failures=failures, reason=failures[0]["description"][:300])
